@@ -24,7 +24,7 @@ const (
 	svcMessaging = "larking.testpb.Messaging"
 )
 
-var allProbeServices = []string{tsvc, svcFiles, svcMessaging}
+var allProbeServices = []string{tsvc, svcFiles, svcMessaging, svcSimUsers, svcSimOrders, svcSimBad}
 
 // every backend implements every probe service, so a call routed to a backend
 // outside the live set is answered (with that backend's tag) and caught
@@ -45,8 +45,15 @@ var defaultAdv = map[string][]string{
 }
 
 func fileMates(service string) []string {
-	if service == tsvc {
+	switch service {
+	case tsvc:
 		return []string{tsvc}
+	case svcSimUsers:
+		return []string{svcSimUsers}
+	case svcSimOrders:
+		// sim/orders.proto imports sim/users.proto: the reflection answer
+		// carries both files, and every file received is registered
+		return []string{svcSimOrders, svcSimUsers}
 	}
 	return []string{svcFiles, svcMessaging}
 }
@@ -87,6 +94,9 @@ var probeKinds = []probeKind{
 	// routes of one service below the implicit /Service/Method node of another
 	{"raw", "http", "json", "GET /larking.testpb.Messaging/GetMessageOne/x/f1", svcFiles + ".UploadDownload"},
 	{"raw", "http", "json", "GET /grpc.testing.TestService/UnaryCall/y/n1", svcMessaging + ".GetMessageOne"},
+	// two services in two files, one importing the other
+	{"raw", "http", "json", "GET /sim/orders/o1", svcSimOrders + ".GetOrder"}, {"raw", "http", "json", "GET /sim/users/u1", svcSimUsers + ".GetUser"},
+	{"raw", "http", "json", "POST /sim.shop.Users/GetUser", svcSimUsers + ".GetUser"},
 }
 
 // registryRules are the service-config rules every registrysim mux carries.
@@ -176,7 +186,10 @@ func genC11(r *core.Rand, run int) *MuxScenario {
 					op.Adv = [][]string{{tsvc}, {svcFiles}, {svcMessaging}, {tsvc, svcMessaging}}[r.Intn(4)]
 				}
 			case 2:
-				op = RegOp{Kind: "regconn", Target: r.PickS("b2", "b3"), Adv: [][]string{{tsvc}, {svcFiles}, {tsvc, svcMessaging}, {}, {svcFiles, svcMessaging}, {tsvc, svcFiles, svcMessaging}, {svcMessaging, svcFiles}}[r.Intn(7)]}
+				op = RegOp{Kind: "regconn", Target: r.PickS("b2", "b3"), Adv: [][]string{{tsvc}, {svcFiles}, {tsvc, svcMessaging}, {}, {svcFiles, svcMessaging}, {tsvc, svcFiles, svcMessaging}, {svcMessaging, svcFiles},
+					{svcSimOrders}, {svcSimUsers}, {svcSimOrders, svcSimUsers}, {svcSimUsers, svcSimOrders}, {tsvc, svcSimOrders}, {svcSimUsers, tsvc},
+					// ... or one whose descriptors carry an uncompilable rule (the registration must fail, and change nothing)
+					{svcSimBad}, {tsvc, svcSimBad}, {svcSimUsers, svcSimBad}}[r.Intn(16)]}
 			case 3:
 				if k > n/2 {
 					op = RegOp{Kind: "regconn", Target: "b3", Fail: "dead"}
@@ -259,6 +272,11 @@ func oracleRegistrySequential(prop string, mr *muxRun, res *RunResult) *Violatio
 			return violationf(prop, "operation-never-returned", ctx, "operation %d of history [%s] did not return", k, hist)
 		}
 		mustFail := op.Fail != "" || op.Kind == "regconn" && dead[op.Target]
+		for _, s := range rr.AdvAt {
+			if s == svcSimBad && op.Kind == "regconn" {
+				mustFail = true // its HTTP rule binds a field that does not exist
+			}
+		}
 		mayFail := false
 		if strings.HasPrefix(op.Fail, "refl:") && !dead[op.Target] {
 			// the reflection stream breaks after j replies: whether that is
